@@ -10,6 +10,7 @@ import sys, os, re, json, subprocess, shutil, time
 HERE = os.path.dirname(os.path.abspath(__file__))
 SEEDED = os.path.join(HERE, "seeded")
 WT = "/tmp/seedv"
+SEEDROOT = os.environ.get("SEED_ROOT", "/tmp/linfa-verif-seed")
 
 
 def sh(cmd, cwd=None, timeout=3600):
@@ -110,7 +111,7 @@ def cmd_check(sid, tier="quick", where="repo"):
     os.environ["VERIF_EVIDENCE_DIR"] = os.path.join(HERE, ".cache", "evidence-seeded")   # never clobber the committed evidence
     t0 = time.time()
     if where == "worktree":
-        wt = "/tmp/seedw-%s" % sid
+        wt = "%s-wt-%s" % (SEEDROOT, sid)
         sh(["git", "-C", "/repo", "worktree", "remove", "--force", wt])
         sh(["git", "-C", "/repo", "worktree", "add", "--detach", wt, "HEAD"])
         try:
@@ -119,12 +120,12 @@ def cmd_check(sid, tier="quick", where="repo"):
                 print("patch does not apply", outa)
                 return
             os.environ["VERIF_REPO"] = wt
-            os.environ["VERIF_STAGE_ROOT"] = "/tmp/linfa-verif-seed"
-            os.environ["VERIF_KANI_TARGET"] = "/tmp/linfa-verif-seed/kani-target"
+            os.environ["VERIF_STAGE_ROOT"] = SEEDROOT
+            os.environ["VERIF_KANI_TARGET"] = SEEDROOT + "/kani-target"
             rc, out = sh([os.path.join(HERE, "vx"), "check", prop, "--tier", tier], cwd=HERE, timeout=7200)
         finally:
             sh(["git", "-C", "/repo", "worktree", "remove", "--force", wt])
-            shutil.rmtree("/tmp/linfa-verif-seed/%s" % prop, ignore_errors=True)
+            shutil.rmtree("%s/%s" % (SEEDROOT, prop), ignore_errors=True)
     else:
         rca, outa = sh(["git", "-C", "/repo", "apply", os.path.join(SEEDED, sid, "patch.diff")])
         try:
